@@ -72,6 +72,20 @@ fn shared_try_receive_wakes_the_pending_sender() {
     core::mem::forget((s, r));
 }
 
+/// values first: whatever else goes wrong in the handle bookkeeping, dropping ONE of several receiver handles must not lose
+/// a buffered value that the others can still reach (kept separate so that no earlier assertion can mask it)
+#[kani::proof]
+fn dropping_a_receiver_clone_keeps_buffered_values() {
+    let (s, r) = pair();
+    let v: u8 = kani::any();
+    let _ = s.try_send(v);
+    let c = r.clone();
+    drop(c);
+    assert!(s.inner.channel.inner.lock().buffer.len() == 1, "[C08] buffered values are never discarded while another receiver can still reach them");
+    assert!(matches!(r.try_receive(), Ok(x) if x == v), "[C08] ... and the remaining receiver still gets exactly that value");
+    core::mem::forget((s, r));
+}
+
 #[kani::proof]
 fn sender_clone_and_drop_count_handles() {
     let (s, r) = pair();
